@@ -52,6 +52,9 @@ class Gen:
     def rlen(self, cap=None):
         r = self.rng.random(); m = self.maxlen if cap is None else min(cap, self.maxlen)
         if r < 0.15 or m <= 0: return 0
+        if r < 0.33:                                                                  # around the 8-byte blocks of hash_data
+            c = [x for x in BLOCK_EDGES if x <= m]
+            if c: return self.rng.choice(c)
         if r < 0.65: return self.rng.randrange(1, min(m, 8) + 1)
         if r < 0.9: return self.rng.randrange(1, min(m, 64) + 1)
         return self.rng.randrange(1, m + 1)
@@ -209,15 +212,139 @@ class Gen:
         elif r < 0.93: self.emit(f'cmp {k} {hx(self.operand(t))}')
         elif r < 0.945: self.emit(f'eq {k} {hx(self.operand(t))}')
         elif r < 0.975: self.emit(f'mem {k} {hx(self.operand(t))}')
-        elif r < 0.985 and others: self.emit(f'cmps {k} {rng.choice(others)}')
+        elif r < 0.98 and others: self.emit(f'cmps {k} {rng.choice(others)}')
         else: self.emit(f'hash {k}')
     def run(self, nops):
         while len(self.lines) < nops: self.step()
         return self.lines
 
+BLOCK_EDGES = (7, 8, 9, 15, 16, 17, 23, 24, 25, 31, 32, 33)
+# byte classes for the systematic families: printable ASCII, bytes >= 0x80, control bytes, everything (no NUL: operands are C strings)
+HASH_ALPHABETS = (bytes(range(32, 127)), bytes(range(0x80, 0x100)), bytes(range(1, 32)), bytes(range(1, 256)),
+                  b'a\x01\x1f\x7f\x80\xff', b'ab')
+CMP_BYTES = (0x01, 0x09, 0x1f, 0x20, 0x41, 0x7e, 0x7f, 0x80, 0x81, 0xa5, 0xfe, 0xff)
+MUT_KINDS = ('new', 'assign', 'assigns', 'copy', 'concat', 'append', 'concats', 'resize', 'rem', 'rems', 'fmt', 'fmtl', 'print', 'printL',
+             'pf', 'show', 'pfrej', 'unchanged')
+
+def hash_lengths(rng, tier):
+    ls = list(range(0, 41)) + [47, 48, 49, 63, 64, 65]
+    more = [127, 128, 129, 255, 256, 257, 1023, 1024, 1025, 4095, 4096]
+    ls += [rng.choice(more), rng.randrange(41, 4097)] if tier == 'quick' else more + [rng.randrange(41, 4097) for _ in range(12)]
+    return ls
+
+def noesc(rng, al, n):
+    """n bytes of the alphabet that String_Show prints as themselves and that are not `%`"""
+    ok = [c for c in al if c not in ESC and c != 37] or [97]
+    return bytes(rng.choice(ok) for _ in range(n))
+
+def mutation_to(rng, kind, T, al):
+    """op lines that leave object 0 (live, any text) holding the text T — by the given kind of mutation —, or None when this
+    kind cannot produce T; objects 1, 2 are free before and after.  Every mutation is followed by the harness's dump, which
+    judges len / c_str / eq / cmp / hash (value) of the result; the caller adds the `hash` / `len` observers for the O lines."""
+    n = len(T); rt = lambda k: bytes(rng.choice(al) for _ in range(k))
+    cut = rng.choice([0, n, n // 2, max(0, n - 1), 8 * (n // 8), max(0, 8 * (n // 8) - 1), rng.randrange(n + 1)])
+    cut = min(cut, n)
+    if kind == 'new': return ['del 0', f'new 0 {hx(T)}'] if n else ['del 0', 'new0 0']
+    if kind == 'assign': return [f'assign 0 {hx(T)}']
+    if kind == 'assigns': return [f'new 1 {hx(T)}', 'assigns 0 1', 'del 1']
+    if kind == 'copy': return [f'new 1 {hx(T)}', 'del 0', 'copy 0 1', 'del 1']
+    if kind in ('concat', 'append'): return [f'assign 0 {hx(T[:cut])}', f'{kind} 0 {hx(T[cut:])}']
+    if kind == 'concats': return [f'assign 0 {hx(T[:cut])}', f'new 1 {hx(T[cut:])}', 'concats 0 1', 'del 1']
+    if kind == 'resize': return [f'assign 0 {hx(T + rt(rng.choice([1, 7, 8, 9, 40])))}', f'resize 0 {n}'] if rng.random() < 0.8 else [f'assign 0 {hx(T)}', f'resize 0 {n + rng.choice([0, 1, 8, 64])}']
+    if kind in ('rem', 'rems'):
+        # U with its FIRST occurrence of X removed is T: put X at `cut` and retry until no earlier occurrence exists
+        for _ in range(20):
+            X = rt(rng.choice([1, 2, 3, 7, 8, 9])); U = T[:cut] + X + T[cut:]
+            if U.find(X) == cut:
+                return [f'assign 0 {hx(U)}', f'rem 0 {hx(X)}'] if kind == 'rem' else [f'assign 0 {hx(U)}', f'new 1 {hx(X)}', 'rems 0 1', 'del 1']
+        return None
+    junk = rt(rng.choice([0, 1, 9, 20]))
+    if kind == 'fmt': return [f'assign 0 {hx(T[:cut] + junk)}', f'fmt 0 {cut} {hx(T[cut:])}']
+    if kind == 'fmtl': return None if 37 in T[cut:] else [f'assign 0 {hx(T[:cut] + junk)}', f'fmtl 0 {cut} {hx(T[cut:])}']
+    if kind == 'print': return [f'assign 0 {hx(T[:cut] + junk)}', f'print 0 {cut} S{hx(T[cut:])}']
+    if kind == 'printL':
+        tail = T[cut:]
+        if not tail or 37 in tail: return None
+        h = len(tail) // 2
+        return [f'assign 0 {hx(T[:cut] + junk)}', f'print 0 {cut} L{hx(tail[:h])} S{hx(tail[h:])}' if h else f'print 0 {cut} L{hx(tail)}']
+    if kind == 'pf':
+        tail = T[cut:]; h = len(tail) // 2; lit = tail[:h]
+        if 37 in lit: lit = b''; h = 0
+        return [f'assign 0 {hx(T[:cut] + junk)}', f'pf 0 {cut} {hx(lit + b"%s")} s{hx(tail[h:])}']
+    if kind == 'show':
+        # show_to writes the quoted, escaped text: T must be <prefix> " <chars printed as themselves> "
+        if n - cut < 2: cut = max(0, n - 2)
+        if n < 2: return None
+        body = T[cut + 1:n - 1]
+        if T[cut] != 34 or T[n - 1] != 34 or any(c in ESC for c in body): return None
+        return [f'assign 0 {hx(T[:cut] + junk)}', f'show 0 {cut} s{hx(body)}']
+    if kind == 'pfrej': return None if (37 in T[cut:] or cut == n) else [f'assign 0 {hx(T[:cut] + junk)}', f'pfrej 0 {cut} {hx(T[cut:])}']
+    if kind == 'unchanged':       # the refused calls leave the text alone: the hash after them is the hash before
+        return [f'assign 0 {hx(T)}', f'remi 0 {rng.choice([0, 7, -1, 2**40])}', f'fmtrej 0 {rng.choice([0, n])}'] + ([f'rem 0 {hx(T + b"a")}'])
+    return None
+
+def hash_family(rng, tier):
+    """every length 0..40 (and longer ones) x every kind of mutation, the byte class rotating (quick) or every class (thorough);
+    then, per length, texts of that length that differ in ONE byte (first, last, around the last 8-byte boundary) — the pairs
+    a hash that skips part of the text confuses"""
+    quick = tier == 'quick'; lines = ['new0 0']; i = 0
+    for L in hash_lengths(rng, tier):
+        for kind in MUT_KINDS:
+            als = [HASH_ALPHABETS[(i + L) % len(HASH_ALPHABETS)]] if quick else HASH_ALPHABETS
+            i += 1
+            if L > 300 and not quick: als = als[:2] if kind in ('new', 'concat', 'rem', 'fmt', 'pf', 'resize') else ()
+            for al in als:
+                if kind == 'show':
+                    if L < 2: continue
+                    pre = rng.choice([0, 0, (L - 2) // 2]); T = bytes(rng.choice(al) for _ in range(pre)) + b'"' + noesc(rng, al, L - 2 - pre) + b'"'
+                    ls = ([f'assign 0 {hx(T[:pre] + b"zz")}', f'show 0 {pre} s{hx(T[pre + 1:L - 1])}'])
+                else:
+                    T = bytes(rng.choice(al) for _ in range(L)); ls = mutation_to(rng, kind, T, al)
+                if ls: lines += ls + ['hash 0'] + (['len 0'] if i % 5 == 0 else [])
+        if L == 0: lines += ['clear 0', 'hash 0']; continue
+        al = HASH_ALPHABETS[(i + L) % 4]; base = bytearray(rng.choice(al) for _ in range(L))
+        lines += [f'assign 0 {hx(bytes(base))}', 'hash 0', f'new 1 {hx(bytes(base))}']
+        for p in sorted({0, L - 1, 8 * (L // 8) if L % 8 else L - 1, max(0, 8 * (L // 8) - 1), L // 2}):
+            v = bytearray(base); v[p] = rng.choice([c for c in (base[p] ^ 1, base[p] ^ 0x80, (base[p] % 255) + 1) if c != 0 and c != base[p]])
+            lines += [f'assign 0 {hx(bytes(v))}', 'hash 0', f'eq 0 {hx(bytes(base))}', f'cmp 0 {hx(bytes(base))}', 'cmps 0 1']
+        lines += ['del 1', 'clear 0', 'hash 0']
+    out = []; cur = []
+    for l in lines:
+        cur.append(l)
+        if len(cur) >= 2500 and l == 'hash 0': out.append(cur); cur = ['new0 0']
+    if len(cur) > 1: out.append(cur)
+    return out
+
+def cmp_family(rng, tier):
+    """the byte ORDER: at one position of otherwise equal texts, every ordered pair out of control / ASCII / 0x7f / >= 0x80 bytes,
+    and each of them against the terminator (a proper prefix), through cmp, eq, mem (stack operand) and cmps (two heap Strings)"""
+    quick = tier == 'quick'; lines = []
+    shapes = [(1, 0), (8, 7), (9, 8), (17, 0)] if quick else [(L, p) for L in (1, 2, 7, 8, 9, 16, 17, 33) for p in sorted({0, L // 2, L - 1})]
+    for L, p in shapes:
+        al = rng.choice(HASH_ALPHABETS[:4]); base = bytearray(rng.choice(al) for _ in range(L))
+        lines.append(f'new 0 {hx(bytes(base))}'); lines.append(f'new 1 {hx(bytes(base))}')
+        for a in CMP_BYTES:
+            x = bytearray(base); x[p] = a; lines.append(f'assign 0 {hx(bytes(x))}')
+            lines += [f'cmp 0 {hx(bytes(x[:p]))}', f'eq 0 {hx(bytes(x[:p]))}', f'cmp 0 {hx(bytes(x) + bytes([a]))}']      # against the terminator, both ways
+            lines += [f'assign 1 {hx(bytes(x[:p]))}', 'cmps 0 1', 'cmps 1 0']
+            for b in CMP_BYTES:
+                y = bytearray(base); y[p] = b
+                lines += [f'cmp 0 {hx(bytes(y))}', f'eq 0 {hx(bytes(y))}']
+                if not quick or (a >= 0x80) != (b >= 0x80): lines += [f'mem 0 {hx(bytes(y[p:]))}', f'assign 1 {hx(bytes(y))}', 'cmps 0 1']
+        lines += ['del 0', 'del 1']
+    out = []; cur = []
+    for l in lines:
+        cur.append(l)
+        if len(cur) >= 2500 and l == 'del 1': out.append(cur); cur = []
+    if cur: out.append(cur)
+    return out
+
 def words(alphabet, maxlen):
     for n in range(maxlen + 1):
         for w in itertools.product(alphabet, repeat=n): yield bytes(w)
+
+class OracleBlindNote(Exception):
+    """raised once per run by C16.stats AFTER all its accounting: the runner turns it into an entry of the evidence's `notes`"""
 
 class C16(Spec):
     id = 'C16'; engine = 'str'; harness = 'h_str'; driver = 'drv_str'
@@ -254,7 +381,12 @@ class C16(Spec):
                   'KF-C16-alias-operand; C16_alias_refuted, C16_alias_operand_refuted, C16_alias_always_undefined; repair proved in C16_alias_repaired). '
                   'hash: C16_hash_is_murmur — String_Hash after any history is MurmurHash64A (seed 0xCe110) over exactly the bytes of the abstract '
                   'string, by composition with engine hash\'s (C10) proof about hash_data; the harness prints the library\'s hash value and the driver '
-                  'the model\'s.')
+                  'the model\'s; C16_hash_test_vectors pins the model to the three values tests/test.c hard-codes and to values for lengths 8, 9, 16 '
+                  '(C16_hash_tail_bytes_count: texts differing only behind the last full block hash differently on the witness pair). '
+                  'Direct oracle, independent of model and library: len (strlen and a byte count), c_str (strcmp), cmp / lt / gt / le / ge (sign of strcmp and of the '
+                  'first differing bytes as unsigned char), eq / neq (byte comparison), mem (strstr and a try-every-start search), rem (strstr + memmove), '
+                  'hash (the harness\'s own MurmurHash64A, two formulations, validated at start-up against tests/test.c\'s constants and Python-computed values) — '
+                  'each after every mutation and at every observer op.')
     level_note = ('Trusted: Lean kernel; axioms propext/Quot.sound/Classical.choice at most; translate/g_str.py; the harness/driver comparison (testing); '
                   'libc str*/mem*/realloc/vsnprintf are modelled by their ISO C specification, not verified; hash_data is engine hash\'s model (C10: '
                   'MurmurHash64A), composed here in C16_hash_is_murmur and compared value by value with the library; size_t and the int arithmetic of '
@@ -271,7 +403,12 @@ class C16(Spec):
             '%s %c %d %i %u %x %X %o with flags, width, precision, l, %$ of Int / String / nested Tuples, several in sequence, unused extra arguments, '
             'the empty format), show_to, and scan_from of a word at a position. After every op the whole allocation (size, all bytes) is compared '
             'with the Lean model and the text with a libc reference; (f) rem / mem / cmp with the target itself and with views $S(c_str(s)+k) into it '
-            '(forked child; by-value libc reference); the hash VALUE is compared with the model of hash_data. non-trivial item = a mutating op on a live String; distinct = distinct '
+            '(forked child; by-value libc reference); the hash VALUE is compared with the model of hash_data AND judged by the harness\'s own MurmurHash64A; '
+            '(g) every length 0..40, 47-49, 63-65 and longer ones up to 4096 x every kind of mutation (new, assign, assigns, copy, concat, append, concats, resize, '
+            'rem, rems, fmt, fmtl, print, pf, show, pfrej, refused calls) over printable / >= 0x80 / control / all bytes, each followed by hash, plus per length '
+            'texts differing in one byte (first, last, either side of the last 8-byte boundary); lengths 7 8 9 15 16 17 23 24 25 31 32 33 are favoured in (b),(c); '
+            '(h) at one position of otherwise equal texts every ordered pair of control / ASCII / 0x7f / >= 0x80 bytes and each against the terminator, through '
+            'cmp, eq, mem and cmps; (i) one text doubled up to 65536 bytes, then 65537 and 65535. non-trivial item = a mutating op on a live String; distinct = distinct '
             '(op text, resulting dump) pairs.')
     trusted_base = ('translate/g_str.py (regex/token extractor over src/String.c, and over print_to_with / the Show instances in src/Show.c, Num.c, Tuple.c)',
                     'the scanner of print_to_with (which format_to calls a format produces) is C14\'s subject; here it is the functional parser Cello.Str.parseFmt, '
@@ -288,7 +425,7 @@ class C16(Spec):
                    '(witness corpus/kf_c16_alias.ops, modelled, never generated); aliased rem / mem / cmp make no realloc and ARE generated and checked by value; '
                    'aliased mutators on an EMPTY target (one NUL copied onto itself: undefined on paper only) are not run',
                    'formatted writes at 0 <= pos <= len; pos > len is modelled (text unchanged) but outside the property; negative pos is undefined behaviour and never generated',
-                   'lengths up to 4096 in the correspondence (theorems have no bound); no allocation failure; size_t arithmetic does not wrap; '
+                   'lengths up to 4096 in the correspondence, one history per run up to 65537 (theorems have no bound); no allocation failure; size_t arithmetic does not wrap; '
                    '`int pos`, `int size = vsnprintf(…)`, the `int` returned by format_to / print_to and `pos + size + 1` computed in int before it is widened '
                    'for realloc (String.c String_Format_To, Show.c print_to_with) are modelled as Nat: no text, position or formatted fragment beyond INT_MAX (2^31-1)',
                    'only the portable branch of String_Format_To is modelled and exercised (#else of CELLO_WINDOWS / CELLO_MAC). Not modelled: the CELLO_WINDOWS '
@@ -299,7 +436,7 @@ class C16(Spec):
                    'print_to_with on a String: formats of the grammar literal | %% | %[-0+]*[width][.prec][l]conv with conv in s c d i u x X o $ and one argument of the '
                    'right class per specification (Int, String, Tuple of these); %c never prints NUL; floats, %p and Array/List arguments (their text contains an '
                    'address) are left to C14; too few arguments (FormatError after a partial write, KF-C14-partial-write) is never generated')
-    ALPHABETS = (b'ab', b'abc', bytes(range(32, 127)), bytes(range(1, 256)), b'a\x80\xff\x7f', b'ab"\\\n?\'%')
+    ALPHABETS = (b'ab', b'abc', bytes(range(32, 127)), bytes(range(1, 256)), b'a\x80\xff\x7f', b'ab"\\\n?\'%', bytes(range(1, 32)) + b'a', bytes(range(0x80, 0x100)))
     def cases(self, rng, tier, boost=1):
         quick = tier == 'quick'
         cs = []
@@ -357,6 +494,17 @@ class C16(Spec):
                 lines.append(f'alias {w} self {hx(t)}')
                 lines += [f'alias {w} v{o} {hx(t)}' for o in offs]
         cs.append(Case('alias_readonly', lines))
+        # (g) the hash VALUE at every length 0..40 (+ longer) after every kind of mutation, and one-byte neighbours of equal length;
+        # (h) the byte order of cmp / eq / mem at one position: control, ASCII, 0x7f, >= 0x80, terminator
+        for r in range(boost if boost > 1 else 1):
+            for i, c in enumerate(hash_family(rng, tier)): cs.append(Case(f'hashlen{r}_{i}', c))
+            for i, c in enumerate(cmp_family(rng, tier)): cs.append(Case(f'cmpbytes{r}_{i}', c))
+            # (i) one text grown by doubling through 8192 … 65536 bytes, then 65537 and 65535 (sizes that no longer fit 16 bits)
+            for i in range(1 if quick else 3):
+                T = bytes(rng.choice(HASH_ALPHABETS[(i + 3) % 4]) for _ in range(4096)); lines = [f'new 0 {hx(T)}', f'new 1 {hx(T)}']
+                for _ in range(4): lines += ['concats 0 1', 'hash 0', 'assigns 1 0']
+                lines += ['append 0 61', 'hash 0', 'resize 0 65535', 'hash 0', 'len 0', f'rem 0 {hx(T[:9])}', 'hash 0', 'cmps 0 1', 'cmps 1 0', 'del 1', 'del 0']
+                cs.append(Case(f'hashhuge{r}_{i}', lines))
         return cs
     def nontrivial_items(self, case, c_out, m_out):
         ops = [l for l in case.lines if l and not l.startswith('#')]
@@ -381,6 +529,45 @@ class C16(Spec):
         for l in core.lines_with('I alias', c_out):
             acc.setdefault('alias_probes', [])
             if len(acc['alias_probes']) < 18: acc['alias_probes'].append(l[2:160])
+        # the harness's independent hash reference: how many hash values were judged, how many were wrong, and — a statistic, never a
+        # violation — how many pairs of different texts of equal length had the same hash
+        for l in core.lines_with('I hashstat', c_out):
+            for f in l.split(' ')[2:]:
+                k, _, v = f.partition('=')
+                if k in ('judged', 'wrong', 'texts', 'equal-length-equal-hash'): acc['hash_' + k.replace('-', '_')] = acc.get('hash_' + k.replace('-', '_'), 0) + int(v)
+                if k == 'reference' and v != 'ok': acc['hash_reference_broken'] = acc.get('hash_reference_broken', 0) + 1
+        for l in core.lines_with('I hash-equal', c_out):
+            acc.setdefault('hash_equal_examples', [])
+            if len(acc['hash_equal_examples']) < 6: acc['hash_equal_examples'].append(f'{case.name}: {l[2:200]}')
+        for l in core.lines_with('O ', c_out):
+            for f in l.split(' '):
+                if f.startswith('len=') and f[4:].isdigit() and int(f[4:]) <= 40:
+                    acc.setdefault('lengths_0_40_dumped', {}); d = acc['lengths_0_40_dumped']; d[f[4:]] = d.get(f[4:], 0) + 1
+        # a case on which model and implementation differ although the direct oracle saw nothing wrong: either the change does not
+        # touch the property (e.g. another allocation size) or the oracle does not judge the observer of that line by itself
+        if m_out.strip():
+            div = core.first_divergence(c_out, m_out)
+            if div and not [x for x in core.lines_with('X ', c_out) if 'sig=kf-' not in x]:
+                acc['divergent_cases_without_oracle_failure'] = acc.get('divergent_cases_without_oracle_failure', 0) + 1
+                w = div[1].split(' '); w2 = div[2].split(' ')
+                what = w[1] if len(w) > 1 else '?'
+                # a dump line whose outcome / len= / s= fields agree differs only in cap= / fnv=: the representation (allocation size, bytes
+                # behind the terminator), which the property does not speak about; anything else is a VALUE the caller sees
+                vis = lambda t: [f for f in t if not (f.startswith('cap=') or f.startswith('fnv='))]
+                rep_only = any(f.startswith('fnv=') for f in w) and vis(w) == vis(w2)
+                key = 'divergent_ops_representation_only' if rep_only else 'divergent_ops_VALUE_without_oracle_failure'
+                acc.setdefault(key, {}); d = acc[key]; d[what] = d.get(what, 0) + 1
+                flag = 'oracle_note_rep' if rep_only else 'oracle_note_value'
+                if not acc.get(flag):
+                    acc[flag] = True
+                    # the runner has no hook for `notes`; what a Spec's stats hook raises is appended to them
+                    head = (f'NOTE (not an error) case {case.name}: model and implementation differ at observation #{div[0]} (op `{what}`: impl `{div[1][:120]}` '
+                            f'model `{div[2][:120]}`) but the direct oracle reported nothing on this case: ')
+                    raise OracleBlindNote(head + ('only cap= / fnv= differ (allocation size or bytes behind the terminator): the value of the String is the same, '
+                                                  'a verdict `no-failing-input-found` is then the expected one for a change that keeps the property' if rep_only else
+                                                  f'a VALUE the caller sees differs from the model and the oracle did not object — if the run ends `no-failing-input-found` '
+                                                  f'the direct oracle is BLIND to what `{what}` returns (it must judge it against its own reference, not only print it); '
+                                                  f'see distribution.divergent_ops_VALUE_without_oracle_failure'))
     def model_selfcheck(self, case, m_out):
         for l in m_out.split('\n'):
             if l.startswith('R ') and 'DISAGREE' in l: return l
